@@ -418,7 +418,11 @@ impl<'a> Printer<'a> {
                     format!(
                         "{{ {} }}",
                         fs.iter()
-                            .map(|(n, x)| format!("{} = {}", n, self.inline(x, ind, 0)))
+                            .map(|(n, x)| match x {
+                                // field shorthand
+                                Tm::Var(v) if v == n => n.clone(),
+                                _ => format!("{} = {}", n, self.inline(x, ind, 0)),
+                            })
                             .collect::<Vec<_>>()
                             .join(", ")
                     )
